@@ -48,3 +48,7 @@ Definition model_reap_runner_call : call_args :=
 Definition model_run_combos_call : call_args :=
   {| ca_var_names := RVarNames; ca_var_dims := RVarDims; ca_var_coords := RVarCoords;
      ca_constants := RConstantsPlusCall; ca_resources := RResources; ca_attrs := RAttrs; ca_parse := AFalse |}.
+
+(* names of call sites in generated tables *)
+Definition site (s : string) : string := s.
+Arguments site s%string_scope.
